@@ -3,6 +3,7 @@ package main
 import (
 	"fmt"
 	"os"
+	"path/filepath"
 	"strconv"
 )
 
@@ -31,6 +32,10 @@ func main() {
 			os.Exit(2)
 		}
 		f(NewRng(seed), n, tier)
+		// scratch that outlives single cases (the CLI binary built for the C12 stream)
+		if sqlcBin != "" {
+			os.RemoveAll(filepath.Dir(sqlcBin))
+		}
 	default:
 		fmt.Fprintln(os.Stderr, "unknown command")
 		os.Exit(2)
